@@ -313,6 +313,8 @@ void add_type(Node *node) {
     if (node->lhs->ty->kind != TY_PTR)
       error_tok(node->lhs->tok, "pointer expected");
     node->ty = node->lhs->ty->base;
+    if (node->ty->kind != TY_STRUCT && node->ty->kind != TY_UNION)
+      node->rhs = new_cast(node->rhs, node->ty);
     return;
   }
 }
